@@ -1602,6 +1602,45 @@ def c12_sites(repo_root, tier):
         why = "root and later segments are not both tested with RE_PROPERTY.fullmatch and quoted through _escape_string"
     _ob(obs, "liquid2.builtin.expressions:Path.__str__/site.root-quoting", ok,
         "a text segment (the root included) is printed bare only if RE_PROPERTY.fullmatch; otherwise in brackets, quoted with Liquid escapes; a root that is a nested path or an index keeps its brackets" if ok else why)
+    # a bare root must not spell a word the lexer reads as something else: every keyword of the lexer's KEYWORD_MAP, `empty`, `blank`
+    lm = repo.module("liquid2.lexer")
+    kw = set()
+    for n in ast.walk(lm.tree) if lm else []:
+        if isinstance(n, ast.AnnAssign) and isinstance(n.target, ast.Name) and n.target.id == "KEYWORD_MAP" and isinstance(n.value, ast.Dict):
+            kw = {k.value for k in n.value.keys if isinstance(k, ast.Constant)}
+    reserved = set()
+    for n in ast.walk(em.tree) if em else []:
+        if isinstance(n, ast.Assign) and len(n.targets) == 1 and isinstance(n.targets[0], ast.Name) and n.targets[0].id == "_RESERVED_WORDS":
+            reserved = {c.value for c in ast.walk(n.value) if isinstance(c, ast.Constant) and isinstance(c.value, str)}
+    fn = em.find("Path.__str__") if em else None
+    okr = fn is not None and bool(kw) and (kw | {"empty", "blank"}) <= reserved and any(
+        isinstance(t, ast.If) and "RE_PROPERTY.fullmatch(root)" in ast.unparse(t.test) and "root not in _RESERVED_WORDS" in ast.unparse(t.test) for t in ast.walk(fn))
+    _ob(obs, "liquid2.builtin.expressions:Path.__str__/site.keyword-root-quoted", okr,
+        f"a root is printed bare only if it is a property name and none of the {len(kw) + 2} reserved words (the lexer's keywords, empty, blank)" if okr
+        else f"a root that spells a keyword ({sorted((kw | {'empty', 'blank'}) - reserved)[:3] or 'nil, for, ..'}) is printed bare: `['nil']` is read back as the literal nil")
+    # a float literal is read back as a float: its text has a fractional part (repr() of 1e16 is '1e+16', an INT token with an exponent)
+    fn = em.find("FloatLiteral.__str__") if em else None
+    okf = fn is not None and "partition('e')" in ast.unparse(fn) and "'.' not in" in ast.unparse(fn)
+    _ob(obs, "liquid2.builtin.expressions:FloatLiteral.__str__/site.float-text-has-fraction", okf,
+        "a float whose repr has an exponent but no fractional part gets `.0` inserted" if okf
+        else "FloatLiteral prints repr(value): 1.0e16 is printed as 1e+16, which the lexer reads as an integer literal")
+    # operands of comparison / membership operators that are logical expressions (or, on the right, comparisons) are parenthesised
+    cmp_classes = ("EqExpression", "NeExpression", "LeExpression", "GeExpression", "LtExpression", "GtExpression", "ContainsExpression", "InExpression")
+    badc = []
+    for cn in cmp_classes:
+        fn = em.find(f"{cn}.__str__") if em else None
+        src = ast.unparse(fn) if fn is not None else ""
+        if not ("_operand(self.left)" in src and "_operand(self.right, right=True)" in src):
+            badc.append(cn)
+    fn = em.find("_operand") if em else None
+    oks = fn is not None and all(k in ast.unparse(fn) for k in ("LogicalAndExpression", "LogicalOrExpression", "LogicalNotExpression", "BooleanExpression(")) and all(k in ast.unparse(fn) for k in cmp_classes)
+    _ob(obs, "liquid2.builtin.expressions/site.comparison-operands-parenthesised", not badc and oks,
+        "every comparison prints its operands through _operand(): logical operands (and comparisons on the right) in parentheses" if not badc and oks
+        else f"{badc or '_operand'}: operands are printed bare, `(a or b) == c` becomes `a or b == c`")
+    fn = em.find("Identifier.as_source") if em else None
+    oka = fn is not None and "_escape_string(str(self), \"'\")" in ast.unparse(fn) and "replace(" not in ast.unparse(fn)
+    _ob(obs, "liquid2.builtin.expressions:Identifier.as_source/site.quoted-with-literal-escapes", oka,
+        "a quoted identifier is written as ' + _escape_string(text, \"'\") + '" if oka else "a quoted identifier is escaped by hand: `${` inside it is printed bare and read back as an interpolation")
     for cn in ("StringLiteral", "TemplateString"):
         fn = em.find(f"{cn}.__str__") if em else None
         okq, why = _quoting_ok(fn)
